@@ -298,11 +298,17 @@ func c16R1(e *c16Env) {
 			if ok {
 				ls := e.SV.Leaves(args[1])
 				ok = len(ls) > 0
+				nreal := 0
 				for _, l := range ls {
+					if isNilConst(l) {
+						continue // the nil request a helper returns next to an error
+					}
+					nreal++
 					if l != ssa.Value(e.orig) && !e.isCloneLeaf(l, e.SV) {
 						ok = false
 					}
 				}
+				ok = ok && nreal > 0
 			}
 			c.Check(R, fmt.Sprintf("%s|http.Client.Do#%d|request-is-clone-of-original", FnName(f), i+1), s.Pos(), ok,
 				ifelse(ok, "every request Client.Do sends is originalReq or originalReq.Clone(ctx)", "Do sends a request that is neither originalReq nor a clone of it: the Authorization header may travel to another host"))
@@ -336,12 +342,18 @@ func c16R1(e *c16Env) {
 			if ld, ok := args[0].(*ssa.UnOp); ok && ld.Op == token.MUL {
 				if fa, ok := ld.X.(*ssa.FieldAddr); ok && fieldName(fa.X.Type(), fa.Field) == "net/http.Request.Header" {
 					ls := e.SV.Leaves(fa.X)
-					okClone = len(ls) > 0
+					nreal := 0
+					okClone = true
 					for _, l := range ls {
+						if isNilConst(l) {
+							continue
+						}
+						nreal++
 						if !e.isCloneLeaf(l, e.SV) {
 							okClone = false
 						}
 					}
+					okClone = okClone && nreal > 0
 				}
 			}
 			c.Check(R, key+"|on-clone", call.Pos(), okClone,
@@ -1109,12 +1121,30 @@ func c16R3(e *c16Env) {
 		return f.Params[pos+1]
 	}
 	isMapOp := func(n string) bool { return strings.HasPrefix(n, "(*sync.Map).") }
+	// the map a sync.Map operation works on: the field its receiver addresses, also when the
+	// operation sits in a helper that is handed the map's address
+	var curView *c14View
 	mapField := func(call ssa.CallInstruction) string {
-		fa, ok := call.Common().Args[0].(*ssa.FieldAddr)
-		if !ok {
+		recv := call.Common().Args[0]
+		if fa, ok := recv.(*ssa.FieldAddr); ok {
+			return fieldName(fa.X.Type(), fa.Field)
+		}
+		if curView == nil {
 			return ""
 		}
-		return fieldName(fa.X.Type(), fa.Field)
+		name := ""
+		for _, l := range curView.LeavesShallow(recv) {
+			fa, ok := l.(*ssa.FieldAddr)
+			if !ok {
+				return ""
+			}
+			n := fieldName(fa.X.Type(), fa.Field)
+			if name != "" && n != name {
+				return ""
+			}
+			name = n
+		}
+		return name
 	}
 	allIs := func(vw *c14View, v ssa.Value, p *ssa.Parameter) bool {
 		if p == nil {
@@ -1139,6 +1169,7 @@ func c16R3(e *c16Env) {
 		nMethods++
 		fn := FnName(f)
 		vw := c14NewView(f, 4, c16Unexported)
+		curView = vw
 		reg, scheme, key := param(f, 1), param(f, 2), param(f, 3)
 		idx := map[string]int{}
 		for _, call := range vw.Calls(isMapOp) {
@@ -1304,7 +1335,18 @@ func c16R3(e *c16Env) {
 					continue
 				}
 				nStores++
-				fa := call.Common().Args[0].(*ssa.FieldAddr)
+				fa, isFA := call.Common().Args[0].(*ssa.FieldAddr)
+				if !isFA {
+					for _, l := range vw.LeavesShallow(call.Common().Args[0]) {
+						if x, ok := l.(*ssa.FieldAddr); ok {
+							fa, isFA = x, true
+						}
+					}
+				}
+				if !isFA {
+					ok = false
+					continue
+				}
 				for _, ed := range neq {
 					if vw.EdgeReach(ed, call.(ssa.Instruction), newCut().Calls(replaces)) {
 						ok = false
@@ -1338,6 +1380,7 @@ func c16R3(e *c16Env) {
 	if nMethods == 0 {
 		return
 	}
+	curView = nil
 	// map operations outside the three Cache methods of concurrentCache
 	for _, f := range e.fns {
 		for _, call := range Calls(f, isMapOp) {
@@ -1359,18 +1402,34 @@ func c16R3(e *c16Env) {
 			continue
 		}
 		idx := map[string]int{}
-		for _, call := range c16CacheCalls(f) {
+		fv := c14NewView(f, 3, c16Unexported)
+		for _, a := range Anons(f) {
+			fv.AddRoot(a, 3, c16Unexported)
+		}
+		same := func(v ssa.Value, p *ssa.Parameter) bool {
+			if p == nil {
+				return false
+			}
+			ls := fv.Leaves(v)
+			for _, l := range ls {
+				if l != ssa.Value(p) {
+					return false
+				}
+			}
+			return len(ls) > 0
+		}
+		for _, call := range fv.Calls(func(n string) bool { return strings.HasPrefix(n, c16Cache) }) {
 			nFwd++
 			name := CalleeName(call)
 			idx[name]++
 			args := call.Common().Args // invoke: Args exclude the receiver
-			ok := len(args) >= 2 && args[1] == ssa.Value(param(f, 1))
+			ok := len(args) >= 2 && same(args[1], param(f, 1))
 			if len(args) >= 3 && param(f, 2) != nil {
-				ok = ok && args[2] == ssa.Value(param(f, 2))
+				ok = ok && same(args[2], param(f, 2))
 			}
 			if len(args) >= 4 && param(f, 3) != nil {
 				_, isK := constString(args[3])
-				ok = ok && (args[3] == ssa.Value(param(f, 3)) || isK)
+				ok = ok && (same(args[3], param(f, 3)) || isK)
 			}
 			c.Check(R, fmt.Sprintf("%s|%s#%d|forwards-registry-scheme", FnName(f), name, idx[name]), call.Pos(), ok,
 				ifelse(ok, "the wrapper passes its own registry (and scheme; key or a constant) to the wrapped cache", "a wrapping cache calls the wrapped cache with another registry/scheme/key than it was asked for"))
